@@ -121,7 +121,82 @@ BR_OPS = [("UB" + c[1:] if c.startswith("U") else "B" + c) + sfx for c in sorted
 EXT_OPS = ["EXT8", "EXT16", "EXT32", "UEXT8", "UEXT16", "UEXT32"]
 
 
-def build_grid_funcs(rows, imms):
+def hard_fp_constants(cls, rng, n):
+    """[(MIR literal, expected bits as the harness prints them)]: k + m*ulp(k) just above powers of two and round
+    decimals (the values whose shortest round-trip representation needs 9 / 17 / 21 digits), extreme finite values,
+    denormals, and random bit patterns; every literal carries enough digits (9 / 17 / 21 significant, computed
+    with exact rational arithmetic) to denote exactly one value of the type"""
+    from fractions import Fraction
+    from decimal import Decimal, getcontext
+    mant, emin, emax, digs, sfx = {"f": (24, -126, 127, 9, "f"), "d": (53, -1022, 1023, 17, ""), "l": (64, -16382, 16383, 21, "L")}[cls]
+
+    def lit(fr):
+        getcontext().prec = digs
+        d = Decimal(fr.numerator) / Decimal(fr.denominator)     # correctly rounded to `digs` significant digits
+        t = f"{d:E}"
+        m_, e_ = t.split("E")
+        if "." not in m_:
+            m_ += ".0"
+        return f"{m_}e{int(e_)}{sfx}"
+
+    def bits_of(fr):   # fr is exactly representable and positive or negative, non-zero
+        sign = 1 if fr < 0 else 0
+        a = abs(fr)
+        e = a.numerator.bit_length() - a.denominator.bit_length()
+        if Fraction(2) ** e > a:
+            e -= 1
+        e = max(e, emin)
+        m = a / Fraction(2) ** (e - (mant - 1))
+        assert m.denominator == 1
+        m = m.numerator
+        if cls == "l":
+            be = 0 if m < (1 << 63) else e + 16383
+            return f"{(sign << 15) | be:x}{m:016x}".lstrip("0") or "0"
+        w = {"f": 32, "d": 64}[cls]
+        if m < (1 << (mant - 1)):
+            be, frac = 0, m
+        else:
+            be, frac = e - emin + 1, m - (1 << (mant - 1))
+        return f"{(sign << (w - 1)) | (be << (mant - 1)) | frac:x}"
+    vals = []
+    for k in (1, 2, 3, 10, 1000, 1024, 65536, 1000000, 123456789):
+        e = k.bit_length() - 1
+        ulp = Fraction(2) ** (e - (mant - 1))
+        if cls == "f" and k >= (1 << 24):
+            continue
+        for m in (1, 2, 3, 5, 7):
+            vals.append(Fraction(k) + m * ulp)
+            vals.append(Fraction(k) - m * ulp / 2 if k == (1 << e) and k > 1 else -(Fraction(k) + m * ulp))
+    vals += [Fraction(1, 10) .limit_denominator(10), Fraction(1, 3)]     # rounded below
+    top = (Fraction(2) ** mant - 1) * Fraction(2) ** (emax - (mant - 1))
+    tiny = Fraction(2) ** (emin - (mant - 1))
+    vals += [top, -top, Fraction(2) ** emin, tiny, 3 * tiny, Fraction(2) ** emin - tiny]
+    for _ in range(n):
+        mbits = rng.next() & ((1 << mant) - 1) | (1 << (mant - 1))
+        ex = rng.below(161) - 80
+        vals.append(Fraction(mbits) * Fraction(2) ** (ex - (mant - 1)) * (-1 if rng.below(2) else 1))
+    out, seen = [], set()
+    for v in vals:
+        # round arbitrary rationals to the type first (round to nearest even on the mantissa grid)
+        a = abs(v)
+        e = a.numerator.bit_length() - a.denominator.bit_length()
+        if Fraction(2) ** e > a:
+            e -= 1
+        e = max(e, emin)
+        q = a / Fraction(2) ** (e - (mant - 1))
+        mi = q.numerator // q.denominator
+        rem = q - mi
+        if rem > Fraction(1, 2) or (rem == Fraction(1, 2) and mi % 2):
+            mi += 1
+        x = Fraction(mi) * Fraction(2) ** (e - (mant - 1)) * (-1 if v < 0 else 1)
+        if x == 0 or x in seen:
+            continue
+        seen.add(x)
+        out.append((lit(x), bits_of(x)))
+    return out
+
+
+def build_grid_funcs(rows, imms, rng=None, nhard=8):
     """functions for the documented opcode inventory (NOT for what the regenerated table happens to contain: a row
     the translator no longer understands must still be executed), fp/ld rows from the table's `other` rows"""
     g = Gen()
@@ -207,8 +282,17 @@ def build_grid_funcs(rows, imms):
             g.add(("fp", name), f"{cls}{cls}_i", f"  {op} @t, a, b\n  mov r, 0\n  ret r\n@t:\n  mov r, 1\n  ret r", shape="br")
         elif helper == "out_op2" and name in ("FNEG", "DNEG", "LDNEG"):
             g.add(("fp", name), f"{cls}_{cls}", f"  {op} r, a\n  ret r", locs=f"{ty}:r", res=ty, shape="r")
-        elif helper == "out_op2" and name in ("FMOV", "DMOV"):
+        elif helper == "out_op2" and name in ("FMOV", "DMOV", "LDMOV"):
             g.add(("fp", name), f"{cls}_{cls}", f"  {op} r, a\n  ret r", locs=f"{ty}:r", res=ty, shape="r")
+            # immediates that need the maximal number of significant digits (9 / 17 / 21) to be re-read exactly;
+            # the expected bits are known, so the scanner (strtof/strtod/strtold) is checked too
+            for txt, bits in hard_fp_constants(cls, rng, nhard):
+                fn_ = g.add(("fpconst", name), f"i_{cls}", f"  {op} r, {txt}\n  ret r", locs=f"{ty}:r", res=ty, shape="hard const")
+                g.meta[fn_]["expect_bits"] = bits
+                add_op = {"f": "fadd", "d": "dadd", "l": "ldadd"}[cls]
+                g.add(("fpconst", name, "operand"), f"{cls}_{cls}", f"  {add_op} r, a, {txt}\n  ret r", locs=f"{ty}:r", res=ty, shape="hard const operand")
+            if cls == "l":
+                continue
             for c in ("0.0", "1.5", "-2.25", "0.1", "1e30", "-1e-30", "3.4028234e38", "1.17549435e-38", "123456.789"):
                 cc = c + ("f" if cls == "f" else "")
                 g.add(("fpconst", name), f"i_{cls}", f"  {op} r, {cc}\n  ret r", locs=f"{ty}:r", res=ty, shape="const " + cc)
@@ -323,7 +407,7 @@ def stage_templates(ck, st, rows, quick, viol):
     imms = [0, 1, 2, 31, 32, 63, 130, (1 << 31), (1 << 40), M64, (1 << 63), 0xFFFFFFFF80000000]
     if not quick:
         imms += [3, 33, 64, (1 << 31) - 1, (1 << 32), M64 - 1, 255, 65536]
-    g = build_grid_funcs(rows, imms)
+    g = build_grid_funcs(rows, imms, ck.rng, 8 if quick else 60)
     iv = int_grid(ck, quick)
     dv, fv, lv = fp_grids(ck, quick)
     plan = ["ivals " + " ".join(f"{x:x}" for x in iv), "dvals " + " ".join(f"{x:x}" for x in dv),
@@ -522,6 +606,11 @@ def stage_templates(ck, st, rows, quick, viol):
             nontriv.add((key, tuple(args)))
             if any(x != got[0] for x in got[1:]):
                 record("engines", fn, a, b, rs, "compiled C differs from MIR_interp")
+            elif m.get("expect_bits") is not None:
+                stats["hard_fp_immediates"] += 1
+                if int(rs[0], 16) != int(m["expect_bits"], 16):
+                    record("model", fn, a, b, rs, f"the literal denotes {m['expect_bits']} (exact rational arithmetic) but every engine returns {rs[0]}",
+                           model=m["expect_bits"], prop_fails=False)
     info = {"evaluations": len(evals) * len(ENGS), "distinct_nontrivial": len(nontriv), "by_kind": dict(dist), "by_shape_top": dict(shapes.most_common(12)),
             "functions": len(g.meta), "grid_ints": len(iv), "stats": dict(stats), "failing_classes": len(bad)}
     for (cls, key, pf), rep in bad.items():
